@@ -155,27 +155,31 @@ func c07Exec(a vh.Args, c *c07Case) error {
 		}
 
 	case "copy":
-		src, _, err := bkNewStore(work, "src")
+		var missing desync.ChunkID
+		if kind == "missing" {
+			missing = idx.Chunks[j].ID
+		}
+		ids := make([]desync.ChunkID, len(idx.Chunks))
+		for i := range idx.Chunks {
+			ids[i] = idx.Chunks[i].ID
+		}
+		src, _, err := bkCachedStore(a.Work, "copy|"+c.Variant+"|"+c.BlobHex+fmt.Sprint(c.Sizes), func(ls desync.LocalStore) error {
+			for i, ch := range in.chunks() {
+				if kind == "missing" && ids[i] == missing {
+					continue
+				}
+				if err := ls.StoreChunk(desync.NewChunk(ch)); err != nil {
+					return err
+				}
+			}
+			return nil
+		})
 		if err != nil {
 			return err
 		}
 		dst, dir, err := bkNewStore(work, "dst")
 		if err != nil {
 			return err
-		}
-		var missing desync.ChunkID
-		if kind == "missing" {
-			missing = idx.Chunks[j].ID
-		}
-		ids := make([]desync.ChunkID, len(idx.Chunks))
-		for i, ch := range in.chunks() {
-			ids[i] = idx.Chunks[i].ID
-			if kind == "missing" && ids[i] == missing {
-				continue
-			}
-			if err := src.StoreChunk(desync.NewChunk(ch)); err != nil {
-				return err
-			}
 		}
 		run = func(ctx context.Context, cc *canceller) error {
 			return desync.Copy(ctx, ids, &hookStore{src, stHook(cc)}, &hookStore{dst, stHook(cc)}, c.N, pb)
@@ -217,17 +221,23 @@ func c07Exec(a vh.Args, c *c07Case) error {
 		complete = func() string { return bkIndexDescribes(got, in.Blob) }
 
 	case "assemble", "assemble-seed":
-		ls, _, err := bkNewStore(work, "store")
+		mkey := "ok"
+		if kind == "missing" {
+			mkey = c.Variant
+		}
+		ls, _, err := bkCachedStore(a.Work, "assemble|"+mkey+"|"+c.BlobHex+fmt.Sprint(c.Sizes), func(ls desync.LocalStore) error {
+			for i, ch := range in.chunks() {
+				if kind == "missing" && idx.Chunks[i].ID == idx.Chunks[j].ID {
+					continue
+				}
+				if err := ls.StoreChunk(desync.NewChunk(ch)); err != nil {
+					return err
+				}
+			}
+			return nil
+		})
 		if err != nil {
 			return err
-		}
-		for i, ch := range in.chunks() {
-			if kind == "missing" && idx.Chunks[i].ID == idx.Chunks[j].ID {
-				continue
-			}
-			if err := ls.StoreChunk(desync.NewChunk(ch)); err != nil {
-				return err
-			}
 		}
 		out := filepath.Join(work, "out")
 		var seeds []desync.Seed
@@ -499,12 +509,14 @@ func runC07(a vh.Args, o *vh.Oracle, r *vh.Result) error {
 	}
 	ns := []int{1, 2, 4}
 	inputsPerOp := 2
-	maxK := 24
+	maxK := 14
 	if thorough {
 		inputsPerOp = 6
 		maxK = 400
 	}
 	for _, sp := range specs {
+		t0 := time.Now()
+		ev0 := r.Evaluations
 		for ii := 0; ii < inputsPerOp; ii++ {
 			var in bkInput
 			var c0 c07Case
@@ -548,8 +560,11 @@ func runC07(a vh.Args, o *vh.Oracle, r *vh.Result) error {
 						return err
 					}
 					total := base.Hits
-					// (A) every scheduling point of the operation
+					// (A) every scheduling point of the operation (skipped when the feeder site is the only one: (B) covers it)
 					ks := pickKs(rng, total+1, maxK)
+					if f, ok := c07Feed[sp.op]; ok && len(c07Sites[sp.op]) == 1 && c07Sites[sp.op][0] == f {
+						ks = nil
+					}
 					for _, k := range ks {
 						c := c0
 						c.Variant, c.N, c.K = v, n, k
@@ -585,11 +600,17 @@ func runC07(a vh.Args, o *vh.Oracle, r *vh.Result) error {
 				}
 			}
 		}
+		r.Note("time %s: %.1fs for %d cases", sp.op, time.Since(t0).Seconds(), r.Evaluations-ev0)
 	}
+	tt := time.Now()
 	if err := c07Trees(a, o, r, rng); err != nil {
 		return err
 	}
-	return c07CLI(a, r, rng)
+	r.Note("time trees: %.1fs", time.Since(tt).Seconds())
+	tt = time.Now()
+	err := c07CLI(a, r, rng)
+	r.Note("time cli: %.1fs", time.Since(tt).Seconds())
+	return err
 }
 
 // pickKs returns 0..max if that is at most limit values, else limit values spread over the range (always 0, 1, max).
